@@ -3225,8 +3225,12 @@ static void build_stmt(WorkList *list, ScopeStack *scopes, ASTNode *stmt, int in
                 /* `for x in (range (f x) (g x))`: x in the bounds is the OUTER x, but in C the
                  * declarator's scope starts at its own initialiser and the condition sees the loop
                  * variable.  Evaluate such bounds into temporaries before the loop. */
+                /* The bounds are evaluated once, before the loop (as the VM and the evaluator do): a
+                 * bound that is not a literal goes into a temporary too, or C would re-evaluate
+                 * '(bound n)' - with its side effects - on every iteration. */
                 bool self_ref = expr_mentions_identifier(range->as.call.args[0], var) ||
-                                expr_mentions_identifier(range->as.call.args[1], var);
+                                expr_mentions_identifier(range->as.call.args[1], var) ||
+                                range->as.call.args[1]->type != AST_NUMBER;
                 int for_tmp_id = 0;
                 if (self_ref) {
                     static int for_bound_counter = 0;
